@@ -419,3 +419,24 @@ M("C01", "C01-UNIT", PYX, "                self.P0 = dist._P0.to_value(self.inte
 M("C01", "C01-DESIGN", LH, "    trend_M = np.vander(dt, N=poly_trend, increasing=True)[:, 1:]\n", "    trend_M = np.vander(dt, N=poly_trend)[:, :-1]\n", "trend columns in decreasing power order (poly_trend >= 3)")
 M("C01", "C01-DESIGN", PR, "        self.v0_offsets = v0_offsets\n", "        self.v0_offsets = sorted(v0_offsets, key=lambda p: p.name)\n", "offset priors sorted by name (seeded C01-A)")
 M("C01", "C01-ENTRY", PYX, "            ll[n] = self.likelihood_worker(0)\n", "            ll[0] = self.likelihood_worker(0)\n", "every value written to slot 0")
+
+# ---------------------------------------------------------------- C03
+_POST_PRO = "                self.Lambda[0] = (self.sigma_K0**2 / (1 - e**2)\n                                  * (P / self.P0)**(-2/3.))\n                self.Lambda[0] = min(self.max_K**2, self.Lambda[0])\n\n            # compute likelihood, but also generate a, Ainv"
+M("C03", "C03-PRO", PYX, _POST_PRO, _POST_PRO.replace("                self.Lambda[0] = min(self.max_K**2, self.Lambda[0])\n", ""), "cap missing on the posterior path (reverse of fix)")
+M("C03", "C03-PRO", PYX, "            get_ivar(self.ivar, chunk[n, 4], self.s_ivar)\n\n            # TODO: this is a continuation of the massive hack introduced above.\n            if self.fixed_K_prior == 0:\n" + _POST_PRO, "            get_ivar(self.ivar, chunk[n, 3], self.s_ivar)\n\n            # TODO: this is a continuation of the massive hack introduced above.\n            if self.fixed_K_prior == 0:\n" + _POST_PRO, "posterior path folds the wrong column as jitter")
+M("C03", "C03-PRO", PYX, _POST_PRO, _POST_PRO.replace("(-2/3.)", "(-1/3.)"), "posterior path uses another variance rule")
+M("C03", "C03-DRAW", PYX, "            _ll = self.likelihood_worker(1)  # the 1 is \"True\"\n", "            _ll = self.likelihood_worker(0)\n", "likelihood_worker(0): a / Ainv not refreshed")
+M("C03", "C03-DRAW", PYX, "                self.a, np.linalg.inv(self.Ainv), size=n_linear_samples_per)", "                self.a, np.array(self.Ainv), size=n_linear_samples_per)", "precision used as covariance")
+M("C03", "C03-DRAW", PYX, "            linear_pars = rng.multivariate_normal(\n", "            linear_pars = np.random.default_rng().multivariate_normal(\n", "fresh generator for the linear draws")
+M("C03", "C03-DRAW", PYX, "                self.a, np.linalg.inv(self.Ainv), size=n_linear_samples_per)", "                self.a, np.linalg.inv(self.Ainv), size=1)", "one draw regardless of n_linear_samples")
+T("C03", PYX, "                self.a, np.linalg.inv(self.Ainv), size=n_linear_samples_per)", "                self.a, np.array(self.A), size=n_linear_samples_per)", "covariance taken from A")
+M("C03", "C03-TENSOR", PYX, "                    self.a[i] += self.M_T[i, n] * self.s_ivar[n] * self.rv[n]\n", "                    self.a[i] += self.M_T[i, n] * self.rv[n]\n", "weights dropped from the rhs")
+M("C03", "C03-TENSOR", PYX, "                self.a[i] += self.mu[i] / self.Lambda[i]\n", "                self.a[i] += self.mu[i] * self.Lambda[i]\n", "prior term multiplied by the variance")
+M("C03", "C03-TENSOR", PYX, "                self.a[i] += self.mu[i] / self.Lambda[i]\n", "                pass\n", "prior mean term dropped")
+M("C03", "C03-LAYOUT", PYX, "                    samples[n, j, 5 + k] = linear_pars[j, k]\n", "                    samples[n, j, 5 + k] = linear_pars[j, 0]\n", "every linear column holds K")
+M("C03", "C03-LAYOUT", PYX, "                    samples[n, j, 5 + k] = linear_pars[j, k]\n", "                    samples[n, j, 4 + k] = linear_pars[j, k]\n", "linear block shifted onto the jitter column")
+M("C03", "C03-LAYOUT", SM, "        for i, k in enumerate(list(units.keys())[:npars]):\n            unit = units[k]\n", "        names = list(samples._valid_units.keys())\n        for i, k in enumerate(names[:npars]):\n            unit = units[k]\n", "unpack names columns from the samples object's own table (seeded C03-A)")
+M("C03", "C03-LAYOUT", PYX, "        for offset in prior.v0_offsets:\n            self.internal_units[offset.name] = self.data.rv.unit\n\n        for i, name in enumerate(prior._v_trend_names):\n            self.internal_units[name] = self.data.rv.unit / u.day ** i\n",
+  "        for i, name in enumerate(prior._v_trend_names):\n            self.internal_units[name] = self.data.rv.unit / u.day ** i\n\n        for offset in prior.v0_offsets:\n            self.internal_units[offset.name] = self.data.rv.unit\n", "offsets named after the trend terms")
+M("C03", "C03-INDEP", MP, "        sg = rng.bit_generator._seed_seq.spawn(len(tasks))\n        for i in range(len(tasks)):\n            tasks[i] = tuple(tasks[i]) + (Generator(PCG64(sg[i])),)\n", "        for i in range(len(tasks)):\n            tasks[i] = tuple(tasks[i]) + (rng,)\n", "every task gets the parent generator (seeded C03-B)")
+M("C03", "C03-JIT", PYX, "                    self.a[i] += self.M_T[i, n] * self.s_ivar[n] * self.rv[n]\n", "                    self.a[i] += self.M_T[i, n] * self.ivar[n] * self.rv[n]\n", "rhs uses the raw weights (reverse of fix)")
